@@ -33,6 +33,10 @@ fn exec<const B: usize, const L: usize>(m: &mut Mon, op: &str, a: &[Arg]) {
                     if let Some(v) = m.must(|| &x $op &y) { m.eq_uint(concat!($opname, ".rr"), &v, &$e); }
                     if let Some(v) = m.must(|| { let mut z = x; z $opa y; z }) { m.eq_uint(concat!($opname, "=.v"), &v, &$e); }
                     if let Some(v) = m.must(|| { let mut z = x; z $opa &y; z }) { m.eq_uint(concat!($opname, "=.r"), &v, &$e); }
+                    if lx == ly {
+                        // both operands are the very same object
+                        if let Some(v) = m.must(|| &x $op &x) { m.eq_uint(concat!($opname, ".rr.alias"), &v, &$e); }
+                    }
                 };
             }
             shapes!("op&", &, &=, e_and);
